@@ -130,12 +130,19 @@ def ro(name, objs):
                    for g in GatherDatabases(query, counters, threshold_bp=0)]
         elif name == "manifest":
             mi = MultiIndex.load([idx], [None], parent="")
+            held = [sig_digest(s) for s in mi.signatures()]
             fp = io.StringIO()
             mi.manifest.write_to_csv(fp, write_header=True)
-            res = (fp.getvalue(), [sig_digest(s) for s in mi.signatures()], len(mi.manifest))
-            fp2 = io.StringIO()
-            mi.manifest.write_to_csv(fp2, write_header=True)
-            res = res + (fp2.getvalue(), [sig_digest(s) for s in mi.signatures()])
+            try:
+                held2 = [sig_digest(s) for s in mi.signatures()]
+                fp2 = io.StringIO()
+                mi.manifest.write_to_csv(fp2, write_header=True)
+                found = [r.signature.md5sum() for r in mi.search(query, threshold=0.0)] if not query.minhash.track_abundance else []
+            except Exception as e:  # noqa: BLE001
+                raise Differs(f"collection unusable after manifest export: {type(e).__name__}: {e}")
+            if held2 != held or fp2.getvalue() != fp.getvalue():
+                raise Differs("manifest export changed the collection")
+            res = (fp.getvalue(), held, len(mi.manifest), found)
         else:
             from sourmash.compare import compare_all_pairs
             m = compare_all_pairs(sigs, ignore_abundance=True, downsample=True)
@@ -215,18 +222,18 @@ def main():
                         res = "err RepeatDiffers"
                 except UnknownOp:
                     raise
-                except KeyError as e:
-                    res = "err KeyError:" + str(e).strip("'\"")
                 except Differs:
                     res = "err InputModified"
-                except (TypeError, ValueError, RuntimeError, ZeroDivisionError):
-                    # a refusal is fine for a read-only call (incompatible operands etc.):
-                    # it must be repeatable, though
+                except Exception as e1:  # noqa: BLE001
+                    # a refusal (incompatible operands, unsupported query ...) is not C15's business,
+                    # but it must be repeatable
                     try:
                         ro(a[0], objs)
                         res = "err RepeatDiffers"
-                    except (TypeError, ValueError, RuntimeError, ZeroDivisionError):
-                        res = "ok"
+                    except Differs:
+                        res = "err InputModified"
+                    except Exception as e2:  # noqa: BLE001
+                        res = "ok" if type(e1) is type(e2) else "err RepeatDiffers"
             else:
                 res = "bad-op"
         except (KeyError, UnknownOp):
